@@ -375,7 +375,7 @@ def check_indents(ctx: Ctx) -> None:
         for inner in f.local_defs.values():
             if isinstance(inner, FuncInfo):
                 decos.append((f, inner))
-    ctx.require("R-LOSSLESS-L8", "line wrapper decorators", len(decos), 2)
+    ctx.require("R-LOSSLESS-L8", "line wrapper decorators", len(decos), 1)
     for fac, w in decos:
         flow = prog.flow(w)
         p_text, p_init, p_sub = w.params[0], w.params[1], w.params[2]
@@ -395,7 +395,7 @@ def check_indents(ctx: Ctx) -> None:
                 ctx.ob("R-LOSSLESS-L8", f"{w.qual} :: base wrapper call {'in loop' if in_loop else 'direct'}", ok2 and ok3,
                        "the base wrapper must get the first-line indent for the first segment only and the continuation indent otherwise; "
                        + detail, where(w, c))
-        ctx.require("R-LOSSLESS-L8", f"base wrapper calls in {w.qual}", n_calls, 2)
+        ctx.require("R-LOSSLESS-L8", f"base wrapper calls in {w.qual}", n_calls, 1)
     # base wrappers: both indents flow into the text; first line gets the initial indent, later lines the subsequent one
     for f in (repo.func(f"{TW}:wrap_paragraph"), sentence_wrapper(ctx)):
         flow = prog.flow(f)
